@@ -1,7 +1,202 @@
 import Driver.Wire
-/-! Driver commands of the Print area (filled in by the area's owner). -/
-namespace Marwood.Driver.Print
+import Driver.Reader
+import Marwood.Print
+import Marwood.Symbol
+import Marwood.Print.Store
+import Marwood.Heap.Gc
+/-! Driver commands of the Print area (C10, C18).
 
-def handle (_cmd : String) (_args : List String) : Option String := none
+* `print <oracle> <alt> <datum>`            model of `format!("{}")` / `format!("{:#}")`
+* `c10-rt <oracle> <datum>`                 write, read back with `parse_text`, write again
+* `spec-c10-rt <datum>`                     the datum with numbers as value + exactness
+* `c10-eval <datum>`                        `Vm::eval` of `(quote d)` (store model)
+* `spec-id <datum>`                         the datum itself
+* `sym-enc <text>` / `sym-enc-pinned <text>` spelling built by `string->symbol`
+* `sym-dec <text>`                          `symbol->string` of a spelling
+* `sym-rt <text>` / `spec-text <text>`      `(symbol->string (string->symbol s))` / `s`
+* `sym-rt2 <text>` / `spec-c18-true`        `(eq? y (string->symbol (symbol->string y)))` / `#t`
+* `c18-eq <mode> <sp1> <sp2>`               two interned symbols on the heap model, collection between
+* `spec-c18-eq <sp1> <sp2>`                 `eq?` iff names equal
+-/
+namespace Marwood.Driver.Print
+open Marwood Marwood.Wire Marwood.Driver.Reader
+
+def oneDatum (ws : List String) : Option Datum :=
+  match decDatum ws with
+  | some (d, []) => some d
+  | _ => none
+
+/-- doubles of a datum that the printer will ask the oracle about -/
+def showRt (fo : FloatOps) (d : Datum) : String :=
+  let w := write fo d
+  if textPoisoned w then "oracle-missing" else
+  match parseText fo w with
+  | .ok (d', rest) =>
+    if datumPoisoned d' then "oracle-missing" else
+    let w2 := write fo d'
+    if textPoisoned w2 then "oracle-missing" else
+    "ok " ++ encText w ++ " | " ++ encDatum d' ++ " | "
+      ++ (match rest with | some t => encText t | none => "none") ++ " | " ++ encText w2
+  | .err e => "ok " ++ encText w ++ " | err " ++ parseErrName e
+  | .panic _ => "ok " ++ encText w ++ " | panic"
+
+/-- source text `(quote <written>)` → reader → heap → result → text -/
+def showTrip (fo : FloatOps) (d : Datum) : String :=
+  let w := write fo d
+  if textPoisoned w then "oracle-missing" else
+  let head := "ok " ++ encText w ++ " | "
+  match parseText fo ("(quote ".toList ++ w ++ [')']) with
+  | .ok (.pair (.sym q) (.pair d' .nil), none) =>
+    if q != quoteName then head ++ "model-unsupported" else
+    if datumPoisoned d' then "oracle-missing" else
+    (match PStore.evalQuote d' with
+      | .ok r =>
+        let w2 := write fo r
+        if textPoisoned w2 then "oracle-missing" else head ++ encDatum r ++ " | " ++ encText w2
+      | .err _ => head ++ "err"
+      | .panic _ => head ++ "panic")
+  | .ok (_, some _) => head ++ "trailing"
+  | .ok (_, none) => head ++ "model-unsupported"
+  | .err e => head ++ "err Parse:" ++ parseErrName e
+  | .panic _ => head ++ "panic"
+
+/-- a datum with numbers replaced by value and exactness (what `≈` of T10.1 compares) -/
+partial def canonDatum : Datum → String
+  | .num n => canonNum n
+  | .pair a d => "pair " ++ canonDatum a ++ " " ++ canonDatum d
+  | .vec e =>
+    let xs := e.listElems
+    s!"vec{xs.length}" ++ String.join (xs.map fun x => " " ++ canonDatum x)
+  | d => encDatum d
+
+def showStore (r : PStore.R Datum) : String :=
+  match r with
+  | .ok d => "ok " ++ encDatum d
+  | .err _ => "err InvalidSyntax"
+  | .panic _ => "panic"
+
+def errName (e : ParseErr) : String := "err Parse:" ++ parseErrName e
+
+def showBool (b : Bool) : String := if b then "b1" else "b0"
+
+/-! ## C18: two productions of symbols on the heap model -/
+
+open Marwood.Heap in
+def rootsOf (ps : List Nat) : Roots :=
+  { globalSyms := ps, globalSlots := [], stack := [], acc := .atom .undefined,
+    ipLam := 2^63, ep := 2^63 }
+
+open Marwood.Heap in
+/-- `put` of a symbol value; the address it is interned at -/
+def intern (h : Heap) (s : Text) : Except String (Heap × Nat) :=
+  match h.maybePut (.symbol s) with
+  | .ok (h', .ptr p) => .ok (h', p)
+  | .ok _ => .error "maybe_put did not return a pointer"
+  | .error e => .error e
+
+open Marwood.Heap in
+def forceGc (h : Heap) (keep : List Nat) : Except String Heap :=
+  match Heap.runGc true true h (rootsOf keep) with
+  | .ok (.collected h') => .ok h'
+  | .ok (.skipped h') => .ok h'
+  | .ok .fuelExhausted => .error "fuel"
+  | .error e => .error e
+
+open Marwood.Heap in
+/-- modes: `none` — intern, intern; `keep` — intern, collect with the first rooted, intern;
+`drop` — intern `s1`, collect with nothing rooted (the entry is swept), intern `s2`, intern `s1` again,
+collect with both rooted, compare the last two -/
+def internEq (mode : String) (s1 s2 : Text) : Except String (Bool × Bool) := do
+  let h0 ← Heap.new 8
+  -- some unrelated live and dead cells around
+  let (h0, x) ← intern h0 "live".toList
+  let (h0, _) ← intern h0 "dead".toList
+  match mode with
+  | "none" =>
+    let (h1, p) ← intern h0 s1
+    let (h2, q) ← intern h1 s2
+    match h2.eqvSym p q with
+    | some b => pure (b, p == q)
+    | none => throw "not symbols"
+  | "keep" =>
+    let (h1, p) ← intern h0 s1
+    let h1 ← forceGc h1 [x, p]
+    let (h2, q) ← intern h1 s2
+    let h2 ← forceGc h2 [x, p, q]
+    match h2.eqvSym p q with
+    | some b => pure (b, p == q)
+    | none => throw "not symbols"
+  | "drop" =>
+    let (h1, _) ← intern h0 s1
+    let h1 ← forceGc h1 [x]
+    let (h2, q) ← intern h1 s2
+    let (h3, r) ← intern h2 s1
+    let h3 ← forceGc h3 [x, q, r]
+    match h3.eqvSym q r with
+    | some b => pure (b, q == r)
+    | none => throw "not symbols"
+  | _ => throw "mode"
+
+def showNameEq (s1 s2 : Text) : String :=
+  match symbolToString s1, symbolToString s2 with
+  | .ok a, .ok b => showBool (a == b)
+  | _, _ => "err"
+
+def isCanonical (y : Text) : Bool :=
+  match reencode y with
+  | .ok z => z == y
+  | .error _ => false
+
+def handle (cmd : String) (args : List String) : Option String :=
+  match cmd, args with
+  | "print", o :: alt :: ws => do
+      let o ← decOracle o
+      let d ← oneDatum ws
+      let alt ← (if alt == "1" then some true else if alt == "0" then some false else none)
+      let t := printD (oracleOps o) alt d
+      pure (if textPoisoned t then "oracle-missing" else "ok " ++ encText t)
+  | "c10-rt", o :: ws => do
+      let o ← decOracle o
+      let d ← oneDatum ws
+      pure (showRt (oracleOps o) d)
+  | "c10-trip", o :: ws => do
+      let o ← decOracle o
+      let d ← oneDatum ws
+      pure (showTrip (oracleOps o) d)
+  | "spec-c10-rt", ws => (oneDatum ws).map fun d => canonDatum d
+  | "c10-eval", ws => (oneDatum ws).map fun d => showStore (PStore.evalQuote d)
+  | "spec-id", ws => (oneDatum ws).map fun d => "ok " ++ encDatum d
+  | "sym-enc", [t] => (decText t).map fun s => "ok " ++ encText (stringToSymbol s)
+  | "sym-enc-pinned", [t] => (decText t).map fun s => "ok " ++ encText (stringToSymbolP true s)
+  | "sym-dec", [t] => (decText t).map fun y =>
+      match symbolToString y with
+      | .ok s => "ok " ++ encText s
+      | .error e => errName e
+  | "sym-rt", [t] => (decText t).map fun s =>
+      match symbolToString (stringToSymbol s) with
+      | .ok s' => "ok " ++ encText s'
+      | .error e => errName e
+  | "spec-text", [t] => (decText t).map fun s => "ok " ++ encText s
+  | "sym-rt2", [t] => (decText t).map fun y =>
+      match reencode y with
+      | .ok z => "ok " ++ showBool (z == y)
+      | .error e => errName e
+  | "spec-c18-true", [] => some "ok b1"
+  | "c18-eq", mode :: a :: b :: _tag => do
+      let s1 ← decText a
+      let s2 ← decText b
+      pure (match internEq mode s1 s2 with
+        | .ok (e, samePtr) =>
+          -- interning: `eq?` (which also compares names) and pointer identity agree
+          if e != samePtr then "model-ptr-mismatch" else "ok " ++ showBool e ++ " " ++ showNameEq s1 s2
+        | .error m => "model-error " ++ m)
+  | "spec-c18-eq", [a, b] => do
+      let s1 ← decText a
+      let s2 ← decText b
+      let canon := (if isCanonical s1 then "1" else "0") ++ (if isCanonical s2 then "1" else "0")
+      pure (match symbolToString s1, symbolToString s2 with
+        | .ok x, .ok y => "ok " ++ showBool (x == y) ++ " " ++ showBool (x == y) ++ " canon=" ++ canon
+        | _, _ => "ok " ++ showBool (s1 == s2) ++ " err canon=" ++ canon)
+  | _, _ => none
 
 end Marwood.Driver.Print
